@@ -5,9 +5,14 @@ use crate::srvx::{tagged_expect_head, tagged_get, tagged_put, ClientCfg, Orders,
 use crate::util::{workers, Part};
 
 fn explore(part: &mut Part, cfg: &SrvCfg, max_states: usize, max_secs: f64) {
+    explore_req(part, cfg, max_states, max_secs, &[]);
+}
+
+fn explore_req(part: &mut Part, cfg: &SrvCfg, max_states: usize, max_secs: f64, required: &[&str]) {
     let limits = Limits { max_states, max_secs, item_timeout_s: 60, ..Default::default() };
     let st = bfs(cfg, &limits, workers());
     record(part, &cfg.label, &st);
+    crate::explore::require_facts(part, &cfg.label, &st, required);
     for (v, _) in &st.violations {
         part.violations.push(v.clone());
     }
@@ -118,6 +123,24 @@ pub fn c07(thorough: bool) -> Vec<Part> {
     let mut b = SrvCfg::base("C07", "pipelined pair vs late connecting client, responses in any order", vec![c0, c1]);
     b.orders = Orders::AscRev;
     cfgs.push(b);
+    {
+        // at capacity: 9 idle connections, a client that closes with a request in flight and a
+        // late connecting client
+        let mut clients = vec![];
+        for _ in 0..9 {
+            clients.push(ClientCfg::filler());
+        }
+        for c in 9..11 {
+            let mut cl = ClientCfg::adversary(vec![tagged_get(c, 0)]);
+            cl.reads = true;
+            cl.can_shut_rd = false;
+            cl.can_shut_wr = false;
+            clients.push(cl);
+        }
+        let mut cap = SrvCfg::base("C07", "at capacity: 9 idle connections + closing client with a request in flight + late client", clients);
+        cap.orders = Orders::AscRev;
+        cfgs.push(cap);
+    }
     if thorough {
         let mut t = SrvCfg::base("C07", "four clients, one request each, close/half-close at any time", mk(4, 1, true));
         t.max_outstanding_for_respond = 4;
@@ -127,7 +150,14 @@ pub fn c07(thorough: bool) -> Vec<Part> {
         cfgs.push(t2);
     }
     for cfg in cfgs {
-        explore(&mut part, &cfg, if thorough { 4_000_000 } else { 500_000 }, if thorough { 2400.0 } else { 120.0 });
+        let req: &[&str] = if cfg.label.starts_with("at capacity") {
+            &["ten_connections_open", "client_closed_with_request_in_flight", "respond_after_client_closed"]
+        } else if cfg.label.starts_with("three clients, one request") || cfg.label.starts_with("four clients") {
+            &["accept_reused_descriptor_number_of_released_connection", "accept_reused_number_while_request_of_previous_owner_outstanding", "respond_after_client_closed", "client_closed_with_request_in_flight"]
+        } else {
+            &["respond_out_of_yield_order"]
+        };
+        explore_req(&mut part, &cfg, if thorough { 4_000_000 } else { 500_000 }, if thorough { 2400.0 } else { 120.0 }, req);
     }
     vec![part]
 }
@@ -218,7 +248,12 @@ pub fn c10(thorough: bool) -> Vec<Part> {
         cfgs.push(cfg);
     }
     for cfg in cfgs {
-        explore(&mut part, &cfg, if thorough { 4_000_000 } else { 400_000 }, if thorough { 2400.0 } else { 150.0 });
+        let req: &[&str] = if cfg.label.starts_with("10 established") {
+            &["client_connected_at_capacity_and_was_refused", "ten_connections_open", "poll_with_nonascending_order"]
+        } else {
+            &["client_connected_at_capacity_and_was_refused", "ten_connections_open", "accept_reused_descriptor_number_of_released_connection", "poll_with_nonascending_order"]
+        };
+        explore_req(&mut part, &cfg, if thorough { 4_000_000 } else { 400_000 }, if thorough { 2400.0 } else { 150.0 }, req);
     }
     vec![part]
 }
@@ -317,11 +352,17 @@ pub fn c11_server(thorough: bool) -> Part {
         cfg.never_yield = never;
         cfg.must_yield_after = must;
         cfg.closure_c11 = true;
+        cfg.yield_promptly = true;
         cfg
     };
     cfgs.push(mk("header line without colon, then blank line, then a valid request", vec![b"GET /c0/r0 HTTP/1.1\r\nnocolon\r\n".to_vec(), b"\r\n".to_vec(), tagged_get(0, 1)], vec![(0, 0)], vec![(0, 1)]));
     cfgs.push(mk("garbage split over two chunks, then a valid request", vec![b"BAD".to_vec(), b" LINE\r\n".to_vec(), tagged_get(0, 1)], vec![], vec![(0, 1)]));
     cfgs.push(mk("oversized declaration, would-be body, then a valid request", vec![b"PUT /c0/r0 HTTP/1.1\r\nContent-Length: 99999999\r\n\r\n".to_vec(), b"body".to_vec(), tagged_get(0, 1)], vec![(0, 0)], vec![]));
+    {
+        let mut good_then_bad = tagged_get(0, 0);
+        good_then_bad.extend_from_slice(b"BAD LINE\r\n");
+        cfgs.push(mk("valid request and garbage in one segment, then a valid request", vec![good_then_bad, tagged_get(0, 1)], vec![], vec![(0, 1)]));
+    }
     if thorough {
         let mut long = b"GET /c0/r0".to_vec();
         long.extend(std::iter::repeat(b'a').take(1100));
